@@ -29,14 +29,14 @@ def monitor_trouble(rep):
 # Part 1 (fixed probes = complete class x format x content matrix first, then random archives); no -race:
 # the extract functions are sequential and the race runtime makes archive building ~30x slower.
 rc, out, rep, _, _ = inpkg.run_inpkg(chk, inj, "./internal/crosscompile", "^TestVerifC20Extract$", race=False,
-                                     timeout=2700 if thorough else 540, extra_env=extra)
+                                     timeout=2700 if thorough else 900, extra_env=extra)
 monitor_trouble(rep)
 inpkg.absorb(chk, rep, out, rc, "extract")
 
 # Part 2: lock hand-over probe + concurrent requests, under the race detector.
 if not os.environ.get("VERIF_C20_ONLY"):
     rc, out, rep, races, race_text = inpkg.run_inpkg(chk, inj, "./internal/crosscompile", "^TestVerifC20Conc$", race=True,
-                                                     timeout=2700 if thorough else 540, extra_env=extra)
+                                                     timeout=2700 if thorough else 900, extra_env=extra)
     # the race detector makes the test binary exit 66 even when the monitor recorded nothing; races are judged below
     if rep is not None and rc != 0 and not rep.get("failures") and races > 0:
         rc = 0
